@@ -78,6 +78,8 @@ type vrSys struct {
 	mu       sync.Mutex // harness-private state below
 	objs     vrObjs
 	base     []*vrSession // sessions that exist in every snapshot
+	ended    []*vrSession // sessions that were created and deleted again (ids below lastProcessed)
+	gline    int32        // this job may apply GLINE (see vrApplyOne)
 	nickless *vrSession
 	pollStop context.CancelFunc
 	pollDone chan struct{}
@@ -98,6 +100,30 @@ func (s *vrSys) cur() vrObjs {
 func (s *vrSys) pick(r *rand.Rand) *vrSession {
 	s.mu.Lock()
 	defer s.mu.Unlock()
+	return s.base[r.Intn(len(s.base))]
+}
+
+// any returns an argument for operations that take a session: mostly a
+// session that exists, but also one that has ended, an id that never was a
+// session (below and far above the last processed message), so that both the
+// hit and the miss paths of every lookup run.
+func (s *vrSys) any(r *rand.Rand) *vrSession {
+	s.mu.Lock()
+	defer s.mu.Unlock()
+	switch r.Intn(10) {
+	case 0:
+		if len(s.ended) > 0 {
+			return s.ended[r.Intn(len(s.ended))]
+		}
+	case 1:
+		// a message id, never a session, older than the last processed message
+		return &vrSession{id: robust.Id{Id: s.base[len(s.base)-1].id.Id + 1}, auth: "never"}
+	case 2:
+		// not (yet) created: newer than everything processed so far
+		return &vrSession{id: robust.Id{Id: s.base[0].id.Id + 1<<40 + uint64(r.Intn(1000))}, auth: "notyet"}
+	case 3:
+		return &vrSession{id: robust.Id{Id: uint64(1 + r.Intn(3))}, auth: "ancient"}
+	}
 	return s.base[r.Intn(len(s.base))]
 }
 
@@ -194,8 +220,14 @@ func (s *vrSys) apply(msg *robust.Message) error {
 }
 
 func (s *vrSys) irc(sess *vrSession, line string) error {
+	// the client's address changes now and then (ProcessMessage then consults
+	// the ban list); 192.0.2.x is never banned by the drivers
+	return s.ircFrom(sess, line, fmt.Sprintf("192.0.2.%d", 7+atomic.AddUint64(&sess.cmid, 0)%16/15))
+}
+
+func (s *vrSys) ircFrom(sess *vrSession, line, remote string) error {
 	cm := atomic.AddUint64(&sess.cmid, 1)
-	return s.apply(&robust.Message{Session: sess.id, Type: robust.IRCFromClient, Data: line, ClientMessageId: cm, RemoteAddr: "192.0.2.7"})
+	return s.apply(&robust.Message{Session: sess.id, Type: robust.IRCFromClient, Data: line, ClientMessageId: cm, RemoteAddr: remote})
 }
 
 func (s *vrSys) createSession() (*vrSession, error) {
@@ -275,6 +307,15 @@ func (s *vrSys) setup() error {
 		s.irc(sess, fmt.Sprintf("USER base%d 0 * :Base %d", k, k))
 		s.irc(sess, "JOIN #base")
 		s.base = append(s.base, sess)
+	}
+	for k := 0; k < 2; k++ {
+		sess, err := s.createSession()
+		if err != nil {
+			return fmt.Errorf("create session: %v", err)
+		}
+		s.irc(sess, fmt.Sprintf("NICK gone%d", k))
+		s.deleteSession(sess)
+		s.ended = append(s.ended, sess)
 	}
 	s.irc(s.base[0], "OPER op oppass")
 	s.irc(s.base[1], "JOIN #side")
@@ -411,11 +452,32 @@ type vrDriver struct {
 
 var vrChannels = []string{"#base", "#side", "#c1", "#c2", "#c3"}
 
-// one state-machine entry, chosen to cover the write paths of the IRC state
+// vrChan: mostly channels that exist or get created, sometimes one nobody ever joined
+func vrChan(r *rand.Rand) string {
+	if r.Intn(6) == 0 {
+		return fmt.Sprintf("#never%d", r.Intn(50))
+	}
+	return vrChannels[r.Intn(len(vrChannels))]
+}
+
+// vrNick: nicknames of base sessions (which may have been renamed since) and unknown ones
+func vrNick(r *rand.Rand) string {
+	if r.Intn(4) == 0 {
+		return fmt.Sprintf("nobody%d", r.Intn(50))
+	}
+	return fmt.Sprintf("base%d", r.Intn(4))
+}
+
+// one state-machine entry, chosen to cover the write paths of the IRC state;
+// arguments are existing and non-existing sessions, channels and nicknames
 func vrApplyOne(s *vrSys, r *rand.Rand) {
 	sess := s.pick(r)
-	ch := vrChannels[r.Intn(len(vrChannels))]
-	switch r.Intn(16) {
+	ch := vrChan(r)
+	n := 19
+	if atomic.LoadInt32(&s.gline) == 1 {
+		n = 21
+	}
+	switch r.Intn(n) {
 	case 0, 1:
 		s.irc(sess, "JOIN "+ch)
 	case 2:
@@ -435,7 +497,7 @@ func vrApplyOne(s *vrSys, r *rand.Rand) {
 	case 9:
 		s.irc(sess, "PING :x")
 	case 10:
-		s.irc(sess, fmt.Sprintf("INVITE base%d %s", r.Intn(4), ch))
+		s.irc(sess, fmt.Sprintf("INVITE %s %s", vrNick(r), ch))
 	case 11:
 		s.irc(sess, "WHO "+ch)
 	case 12:
@@ -458,11 +520,33 @@ func vrApplyOne(s *vrSys, r *rand.Rand) {
 	case 14:
 		s.applyConfig()
 	case 15:
-		// (no GLINE: cmdGline takes ConfigMu.Lock while holding sessionsMu,
-		// ThrottleUntil/ExpireSessions/handleStatus take them in the other
-		// order -- a lock-order inversion of the tree that deadlocks the
-		// harness; it is not a data race)
 		s.irc(sess, "NAMES "+ch)
+	case 16:
+		// a message for a session that does not exist (ended, never created,
+		// not yet created): the miss path of the session lookup
+		s.irc(s.any(r), "PING :ghost")
+	case 17:
+		s.irc(sess, "PRIVMSG "+vrNick(r)+" :direct")
+	case 18:
+		s.irc(sess, "WHOIS "+vrNick(r))
+	case 19, 20:
+		// GLINE writes Config.Banned in place.  cmdGline takes ConfigMu.Lock
+		// while holding sessionsMu; operations that take ConfigMu BEFORE
+		// sessionsMu (ThrottleUntil, ExpireSessions, handleStatus) deadlock
+		// against it -- a lock-order inversion of the tree, not a data race.
+		// The check driver therefore enables GLINE only in jobs whose other
+		// operation does not nest the two locks in that order.
+		if t, err := s.createSession(); err == nil {
+			k := atomic.AddUint64(&s.nickSeq, 1)
+			addr := fmt.Sprintf("203.0.113.%d", k%250)
+			s.ircFrom(t, fmt.Sprintf("NICK victim%d", k), addr)
+			s.ircFrom(t, "USER victim 0 * :victim", addr)
+			if r.Intn(3) == 0 {
+				s.irc(s.base[0], fmt.Sprintf("GLINE nobody%d :no such nick", k))
+			}
+			s.irc(s.base[0], fmt.Sprintf("GLINE victim%d :spam", k))
+			s.deleteSession(t)
+		}
 	}
 }
 
@@ -504,7 +588,11 @@ func init() {
 	d["HTTP.handleStatusGetMessage"] = vrDriver{run: vrStatus("/status/getmessage"), prep: func(s *vrSys) { s.ensureNicklessPoll() }}
 	vrAlias("HTTP.handleStatusGetMessage", "GetMessagesStats.NickWithFallback", "GetMessagesStats.StartedAndRelative", "HTTP.copyGetMessagesRequests")
 	d["HTTP.handleIrclog"] = vrDriver{run: func(s *vrSys, r *rand.Rand) {
-		s.private("GET", fmt.Sprintf("/irclog?sessionid=%d", s.pick(r).id.Id), "")
+		if r.Intn(8) == 0 {
+			s.private("GET", "/irclog?sessionid=bogus", "")
+			return
+		}
+		s.private("GET", fmt.Sprintf("/irclog?sessionid=%d", s.any(r).id.Id), "")
 	}}
 	d["HTTP.handleGetConfig"] = vrDriver{run: vrStatus("/config")}
 	d["HTTP.handleLeader"] = vrDriver{run: vrStatus("/leader")}
@@ -532,7 +620,9 @@ func init() {
 	d["HTTP.handlePostMessage"] = vrDriver{run: func(s *vrSys, r *rand.Rand) {
 		ch := vrChannels[r.Intn(len(vrChannels))]
 		lines := []string{"JOIN " + ch, "PRIVMSG " + ch + " :posted", "PART " + ch, "PING :p"}
-		s.postMessage(s.pick(r), lines[r.Intn(len(lines))])
+		// existing sessions, and ended / unknown / future ones (the handler
+		// then fails in session(): the miss path of GetAuth/GetSession)
+		s.postMessage(s.any(r), lines[r.Intn(len(lines))])
 	}}
 	vrAlias("HTTP.handlePostMessage", "HTTP.DispatchPublic", "HTTP.session", "HTTP.sessionOrProxy", "HTTP.ircServer", "HTTP.output", "HTTP.ircStore")
 	d["HTTP.handleCreateSession"] = vrDriver{run: func(s *vrSys, r *rand.Rand) {
@@ -548,7 +638,7 @@ func init() {
 		}
 	}}
 	vrAlias("HTTP.handleCreateSession", "HTTP.handleDeleteSession")
-	d["HTTP.handleGetMessages"] = vrDriver{run: func(s *vrSys, r *rand.Rand) { s.longPoll(s.pick(r), 6*time.Millisecond) }}
+	d["HTTP.handleGetMessages"] = vrDriver{run: func(s *vrSys, r *rand.Rand) { s.longPoll(s.any(r), 6*time.Millisecond) }}
 	vrAlias("HTTP.handleGetMessages", "HTTP.getMessages", "HTTP.pingTicker", "HTTP.setGetMessagesRequests", "HTTP.deleteGetMessagesRequests",
 		"HTTP.pingMessage", "HTTP.partitioned", "OutputStream.InterruptGetNext")
 
@@ -561,11 +651,11 @@ func init() {
 	vrAlias("main.mainLoop", "IRCServer.ExpireSessions")
 
 	// ---- public methods reachable from handler goroutines
-	d["IRCServer.GetSession"] = vrDriver{run: vrDirect(func(o vrObjs, s *vrSys, r *rand.Rand) { o.irc.GetSession(s.pick(r).id) })}
-	d["IRCServer.GetAuth"] = vrDriver{run: vrDirect(func(o vrObjs, s *vrSys, r *rand.Rand) { o.irc.GetAuth(s.pick(r).id) })}
-	d["IRCServer.GetNick"] = vrDriver{run: vrDirect(func(o vrObjs, s *vrSys, r *rand.Rand) { o.irc.GetNick(s.pick(r).id) })}
-	d["IRCServer.ThrottleUntil"] = vrDriver{run: vrDirect(func(o vrObjs, s *vrSys, r *rand.Rand) { o.irc.ThrottleUntil(s.pick(r).id) })}
-	d["IRCServer.LastPostMessage"] = vrDriver{run: vrDirect(func(o vrObjs, s *vrSys, r *rand.Rand) { o.irc.LastPostMessage(s.pick(r).id) })}
+	d["IRCServer.GetSession"] = vrDriver{run: vrDirect(func(o vrObjs, s *vrSys, r *rand.Rand) { o.irc.GetSession(s.any(r).id) })}
+	d["IRCServer.GetAuth"] = vrDriver{run: vrDirect(func(o vrObjs, s *vrSys, r *rand.Rand) { o.irc.GetAuth(s.any(r).id) })}
+	d["IRCServer.GetNick"] = vrDriver{run: vrDirect(func(o vrObjs, s *vrSys, r *rand.Rand) { o.irc.GetNick(s.any(r).id) })}
+	d["IRCServer.ThrottleUntil"] = vrDriver{run: vrDirect(func(o vrObjs, s *vrSys, r *rand.Rand) { o.irc.ThrottleUntil(s.any(r).id) })}
+	d["IRCServer.LastPostMessage"] = vrDriver{run: vrDirect(func(o vrObjs, s *vrSys, r *rand.Rand) { o.irc.LastPostMessage(s.any(r).id) })}
 	d["IRCServer.GetSessions"] = vrDriver{run: vrDirect(func(o vrObjs, s *vrSys, r *rand.Rand) {
 		for _, sess := range o.irc.GetSessions() {
 			_ = sess.Nick
@@ -576,11 +666,13 @@ func init() {
 	d["IRCServer.SessionLimit"] = vrDriver{run: vrDirect(func(o vrObjs, s *vrSys, r *rand.Rand) { o.irc.SessionLimit() })}
 	d["IRCServer.ChannelLimit"] = vrDriver{run: vrDirect(func(o vrObjs, s *vrSys, r *rand.Rand) { o.irc.ChannelLimit() })}
 	d["IRCServer.OriginWhitelisted"] = vrDriver{run: vrDirect(func(o vrObjs, s *vrSys, r *rand.Rand) { o.irc.OriginWhitelisted("https://x.example") })}
-	d["IRCServer.TrustedBridge"] = vrDriver{run: vrDirect(func(o vrObjs, s *vrSys, r *rand.Rand) { o.irc.TrustedBridge("bridgeauth") })}
+	d["IRCServer.TrustedBridge"] = vrDriver{run: vrDirect(func(o vrObjs, s *vrSys, r *rand.Rand) {
+		o.irc.TrustedBridge([]string{"bridgeauth", "unknown-bridge", ""}[r.Intn(3)])
+	})}
 	d["IRCServer.Marshal"] = vrDriver{run: vrDirect(func(o vrObjs, s *vrSys, r *rand.Rand) { o.irc.Marshal(0) })}
 	d["OutputStream.Get"] = vrDriver{run: vrDirect(func(o vrObjs, s *vrSys, r *rand.Rand) {
 		o.out.Get(o.out.LastSeen())
-		o.out.Get(robust.Id{Id: s.pick(r).id.Id})
+		o.out.Get(robust.Id{Id: s.any(r).id.Id})
 	})}
 	d["OutputStream.GetNext"] = vrDriver{run: vrDirect(func(o vrObjs, s *vrSys, r *rand.Rand) {
 		ctx, cancel := context.WithCancel(context.Background())
@@ -611,9 +703,14 @@ func init() {
 		last, _ := o.store.LastIndex()
 		var l raft.Log
 		o.store.GetLog(last, &l)
+		o.store.GetLog(last+uint64(1+r.Intn(100)), &l) // not stored
+		o.store.GetLog(0, &l)
 	})}
 	d["LevelDBStore.GetBulkIterator"] = vrDriver{run: vrDirect(func(o vrObjs, s *vrSys, r *rand.Rand) {
 		first, _ := o.store.FirstIndex()
+		if r.Intn(4) == 0 {
+			first += 1 << 30 // nothing stored there
+		}
 		it := o.store.GetBulkIterator(first, first+3)
 		for it.Next() {
 		}
@@ -626,9 +723,16 @@ func init() {
 		last, _ := s.logStore.LastIndex()
 		var l raft.Log
 		s.logStore.GetLog(last, &l)
+		s.logStore.GetLog(last+uint64(1+r.Intn(100)), &l) // not stored
 	}}
-	d["LevelDBStore@log.Get"] = vrDriver{run: func(s *vrSys, r *rand.Rand) { s.logStore.Get([]byte("CurrentTerm")) }}
-	d["LevelDBStore@log.GetUint64"] = vrDriver{run: func(s *vrSys, r *rand.Rand) { s.logStore.GetUint64([]byte("CurrentTerm")) }}
+	d["LevelDBStore@log.Get"] = vrDriver{run: func(s *vrSys, r *rand.Rand) {
+		s.logStore.Get([]byte("CurrentTerm"))
+		s.logStore.Get([]byte("verif-no-such-key"))
+	}}
+	d["LevelDBStore@log.GetUint64"] = vrDriver{run: func(s *vrSys, r *rand.Rand) {
+		s.logStore.GetUint64([]byte("CurrentTerm"))
+		s.logStore.GetUint64([]byte("verif-no-such-u64"))
+	}}
 	d["LevelDBStore@log.Set"] = vrDriver{run: func(s *vrSys, r *rand.Rand) { s.logStore.Set([]byte("verif-key"), []byte("v")) }}
 	d["LevelDBStore@log.SetUint64"] = vrDriver{run: func(s *vrSys, r *rand.Rand) { s.logStore.SetUint64([]byte("verif-u64"), uint64(r.Intn(9))) }}
 }
@@ -640,6 +744,7 @@ type vrJob struct {
 	A     string `json:"a"`
 	B     string `json:"b"`
 	Iters int    `json:"iters"`
+	Gline bool   `json:"gline"`
 }
 
 type vrPlan struct {
@@ -725,6 +830,11 @@ func TestVerifRace(t *testing.T) {
 		}
 		if db.prep != nil {
 			db.prep(s)
+		}
+		if job.Gline {
+			atomic.StoreInt32(&s.gline, 1)
+		} else {
+			atomic.StoreInt32(&s.gline, 0)
 		}
 		fmt.Fprintf(os.Stderr, "VERIF-JOB-BEGIN %d %s %s\n", job.ID, job.A, job.B)
 		t0 := time.Now()
